@@ -59,7 +59,7 @@ CLAIMED.update({
    note="trusted: refserver; a watchdog firing without the stall signature is inconclusive, not a violation", ref="6/C07"),
 })
 CLAIMED.update({
- "C09": dict(level="exploration", technique="end-to-end trace monitoring with unique request ids: real client vs scriptable reference server (shuffled, containerised, gzip-packed answers), PRNG delays at hook points, Go race detector (E1 escalation), child process",
+ "C09": dict(level="exploration", technique="end-to-end trace monitoring with unique request ids: real client vs scriptable reference server (shuffled, containerised, gzip-packed answers), PRNG delays at hook points, Go race detector (E1 escalation), child process; recorded call/return histories of the two dispatch tables checked for linearizability per key with porcupine",
    text="Concurrent callers issue requests of five result kinds; the server answers in scripted order and wrapping; every request carries a unique uid and every answer a stamp f(uid), so each return identifies the request it answered without search; oracle: exactly one return per call, own stamp or own rpc_error, no duplicates, no panic, no stall. Distinct hook-order signatures are reported as the measure of interleavings seen.",
    note="trusted: refserver, hook points only delay at existing suspension points; only executions produced are judged", ref="6/C09"),
  "C10": dict(level="exploration", technique="online trace checking at the server side of the socket (arrival-order monitor of msg_id/seq_no rules, ack set equality at quiescence), steering gate at the msg_id hook, injected clocks (H4), race detector with E1/E2 escalations",
